@@ -79,7 +79,7 @@ func recovery(logger *slog.Logger, c Context, handle RecoveryFunc) {
 				if idx < 0 {
 					continue
 				}
-				if slices.Contains(blacklistedHeader, string(header[:idx])) {
+				if isBlacklistedHeader(string(header[:idx])) {
 					sb.Write(header[:idx])
 					sb.WriteString(": <redacted>")
 					continue
@@ -120,6 +120,17 @@ func recovery(logger *slog.Logger, c Context, handle RecoveryFunc) {
 			handle(c, err)
 		}
 	}
+}
+
+// isBlacklistedHeader reports whether name is a credential-bearing header, whatever its capitalisation
+// (the request dump prints header names as they are stored, e.g. X-Csrf-Token or x-vault-token).
+func isBlacklistedHeader(name string) bool {
+	for _, h := range blacklistedHeader {
+		if strings.EqualFold(h, name) {
+			return true
+		}
+	}
+	return false
 }
 
 func connIsBroken(err any) bool {
